@@ -492,6 +492,39 @@ fn validate_challenge(ca: &Ca, ai: usize, ci: usize, thumb: &str) -> (bool, Valu
     }
 }
 
+/// Re-lays out a canonical PEM chain without changing any certificate.
+fn restyle_pem(pem: &[u8], style: &str) -> Vec<u8> {
+    let text = String::from_utf8_lossy(pem).to_string();
+    match style {
+        "blank-lines" => text.replace("-----END CERTIFICATE-----\n-----BEGIN", "-----END CERTIFICATE-----\n\n-----BEGIN").into_bytes(),
+        "crlf" => text.replace('\n', "\r\n").into_bytes(),
+        "no-final-newline" => text.trim_end_matches('\n').as_bytes().to_vec(),
+        "text-around" => format!("# issued by the mock CA\nsubject: leaf\n{}trailing remark\n", text.replace("-----END CERTIFICATE-----\n-----BEGIN", "-----END CERTIFICATE-----\nissuer certificate follows\n-----BEGIN")).into_bytes(),
+        "wrap76" => {
+            let mut out = String::new();
+            let mut b64 = String::new();
+            for line in text.lines() {
+                if line.starts_with("-----BEGIN") {
+                    out.push_str(line);
+                    out.push('\n');
+                    b64.clear();
+                } else if line.starts_with("-----END") {
+                    for ch in b64.as_bytes().chunks(76) {
+                        out.push_str(std::str::from_utf8(ch).unwrap());
+                        out.push('\n');
+                    }
+                    out.push_str(line);
+                    out.push('\n');
+                } else {
+                    b64.push_str(line.trim());
+                }
+            }
+            out.into_bytes()
+        }
+        _ => pem.to_vec(),
+    }
+}
+
 struct Exchange {
     resp: Option<Response>,
     truncate: Option<usize>,
@@ -1260,11 +1293,17 @@ fn handle(g: &mut Global, req: &Request, t_recv: u64) -> Exchange {
                             let lifetime = cfg_cycle_i64(ca, "lifetimes_s", n, 90 * 86400);
                             let skew = cfg_u64(ca, "not_before_skew_s", 60) as i64;
                             let pem = pki.issue(&pk, &ca.orders[oi].identifiers, chain_len, lifetime, skew);
+                            // layout of the PEM text served (all of them legal): cycled per issuance when a list is configured
+                            let style = match cfg_get(ca, "pem_styles") {
+                                Some(Value::Array(a)) if !a.is_empty() => a[(n as usize) % a.len()].as_str().unwrap_or("canonical").to_string(),
+                                _ => "canonical".to_string(),
+                            };
+                            let pem = restyle_pem(&pem, &style);
                             let key = ca.orders[oi].cert_key.clone();
                             ca.issued_by_cert.insert(key, n + 1);
                             let cid = ca.certs.len();
                             extra["issued"] = json!({"cert_id": cid, "issue_no": n, "chain_len": chain_len, "lifetime_s": lifetime,
-                                "body_sha": sha256_hex(&pem), "body_len": pem.len(), "not_after_unix": unix_s() as i64 + lifetime});
+                                "body_sha": sha256_hex(&pem), "body_len": pem.len(), "pem_style": style, "not_after_unix": unix_s() as i64 + lifetime});
                             ca.certs.push(pem);
                             ca.orders[oi].cert_id = Some(cid);
                             ca.orders[oi].finalized = true;
@@ -1338,6 +1377,8 @@ fn handle(g: &mut Global, req: &Request, t_recv: u64) -> Exchange {
                 r.body = match how {
                     "empty" => vec![],
                     "truncated" => r.body[..r.body.len() / 3].to_vec(),
+                    // the leaf is complete, the last certificate of the chain is cut
+                    "truncated-tail" => r.body[..r.body.len() - 200.min(r.body.len() / 4)].to_vec(),
                     "html" => b"<html>not a certificate</html>".to_vec(),
                     _ => b"-----BEGIN CERTIFICATE-----\nnot base64 at all !!!\n-----END CERTIFICATE-----\n".to_vec(),
                 };
